@@ -29,7 +29,32 @@ var c43Pairs = [][2]uint64{{0, 0}, {1, 1}, {2, 1}, {2, 2}, {5, 1}, {5, 5}}
 
 var c43Bases = []int64{-1, 0, 1, 3} // -1 = nil (pre-London)
 
-var c43T0 = time.Unix(1_700_000_000, 0)
+// Arrival instants, in chronological order (the index order IS the time order the oracle uses). They straddle second
+// boundaries with non-monotonic sub-second parts, so that a comparison that looks at seconds and nanoseconds
+// separately (or only at one of them) disagrees with the full timestamp order for some pair.
+var c43Instants = []time.Time{
+	time.Unix(1_700_000_099, 999_999_999),
+	time.Unix(1_700_000_100, 900_000_000),
+	time.Unix(1_700_000_101, 100_000_000),
+	time.Unix(1_700_000_101, 500_000_000),
+	time.Unix(1_700_000_102, 0),
+}
+
+// c43TimeSet picks n of the instants (still chronological): 2 -> {100.9s, 101.1s}, 3 -> {99.999999999s, 100.9s, 101.1s}.
+func c43TimeSet(n int) []time.Time {
+	for i := 1; i < len(c43Instants); i++ {
+		if !c43Instants[i-1].Before(c43Instants[i]) {
+			panic("c43: instants must be strictly chronological")
+		}
+	}
+	switch n {
+	case 2:
+		return c43Instants[1:3]
+	case 3:
+		return c43Instants[0:3]
+	}
+	return c43Instants[:n]
+}
 
 // c43Opt encodes one transaction choice: pair index * nTimes + time index.
 type c43Opt struct {
@@ -80,7 +105,7 @@ func c43NewCtx(nTimes int) *c43Ctx {
 			for oi, o := range c.opts {
 				c.lazy[a][pos] = append(c.lazy[a][pos], &txpool.LazyTransaction{
 					Hash:      common.Hash{byte(a), byte(pos), byte(oi)},
-					Time:      c43T0.Add(time.Duration(o.t) * time.Second),
+					Time:      c43TimeSet(nTimes)[o.t],
 					GasFeeCap: uint256.NewInt(o.cap),
 					GasTipCap: uint256.NewInt(o.tip),
 					Gas:       uint64(a*16 + pos), // identity tag (the iterator does not read Gas)
@@ -246,10 +271,10 @@ func TestVerif_C43(t *testing.T) {
 			la, lb, lc int
 		}
 		shapes := mc.Pick(r,
-			[]shape{{2, 2, 2, 1}, {2, 3, 1, 0}, {3, 1, 1, 1}},
-			[]shape{{2, 3, 2, 1}, {3, 2, 2, 1}, {2, 2, 2, 2}})
+			[]shape{{2, 2, 2, 1}, {2, 3, 1, 0}, {5, 1, 1, 1}},
+			[]shape{{2, 3, 2, 1}, {3, 2, 2, 1}, {2, 2, 2, 2}, {5, 2, 1, 1}})
 		r.Rule("all pending maps over 3 accounts with nonce-ordered lists of bounded length (per shape: la,lb,lc), each transaction drawn from " +
-			"6 (feeCap,tip) pairs {0/0,1/1,2/1,2/2,5/1,5/5} x nTimes arrival instants, x base fee {nil,0,1,3}; for every map EVERY Shift/Pop decision sequence " +
+			"6 (feeCap,tip) pairs {0/0,1/1,2/1,2/2,5/1,5/5} x nTimes arrival instants out of {99.999999999s, 100.9s, 101.1s, 101.5s, 102.0s} (second boundaries crossed, sub-second parts not monotonic), x base fee {nil,0,1,3}; for every map EVERY Shift/Pop decision sequence " +
 			"until the iterator is empty (DFS); maps that differ only by swapping two accounts are enumerated once (list index of B <= that of A, of C <= that of B, " +
 			"whenever both range over the same list set); one evaluation = one map with its whole decision tree; distinct = distinct (shape-independent) maps")
 		r.Assume("model = recompute-from-scratch set of available heads; effective tip = tip if base fee nil else min(tip, feeCap-base), not includable if feeCap<base; " +
